@@ -359,6 +359,27 @@ Theorem C18_gate_on_every_message_example :
 Proof. exact gate_on_every_message_same_schedule. Qed.
 Print Assumptions C18_gate_on_every_message_example.
 
+(* (1d) clean-up vs renewal: (1) already quantifies over both halves of cleanup() interleaved with everything else, with
+   the sweep of the ban table deciding and deleting in ONE locked section.  A sweep that deletes by key what an earlier
+   scan saw expired is refuted: the ban renewed between scan and delete is erased, the one-section sweep keeps it *)
+Theorem C18_two_phase_sweep_refuted :
+  exists m0 ip t0 t1 dl,
+    let stale := scan_expired t0 m0 [ip] in
+    let m1 := put current_variant m0 ip (mk_expiry t1 3600000) in
+    covers m1 ip (Some dl) /\ t1 <= dl /\
+    delete_keys stale m1 ip = None /\
+    covers (sweep t0 m1) ip (Some dl).
+Proof. exact two_phase_sweep_refuted. Qed.
+Print Assumptions C18_two_phase_sweep_refuted.
+
+(* "an address": the key HandleHandshake derives from the connection (extractIP), PROBED on every run on all shapes of a
+   peer address (typed with/without IPv6 zone; strings with/without port, brackets, zone): the key depends on the peer
+   alone and distinguishes peers, so every theorem above, stated per key, is a statement per peer IP *)
+Theorem C18_address_key_is_the_peer :
+  addr_keys_by_peer_b addr_key_table = true /\ (12 <= length addr_key_table)%nat.
+Proof. exact addr_keys_by_peer. Qed.
+Print Assumptions C18_address_key_is_the_peer.
+
 (* the two defects of the pinned tree, as schedule witnesses against statement (1) *)
 Theorem C18_pinned_unban_erases_reban_refuted :
   exists C ip dlo threads pre sched,
